@@ -2,6 +2,7 @@
 import contextlib
 import io
 
+PYOPT = 2  # every second shard also runs in an interpreter started with -O
 LEVEL = "exploration"
 RULE = (
     "sense buffers built from (response code, valid, sense key, ASC, ASCQ, length, filler): response codes 70h-73h and "
